@@ -1,4 +1,5 @@
 import Netconan.Proofs.SrcTieIp
+import Netconan.Proofs.SrcTieText
 import Netconan.Props.C03
 import Netconan.Props.C05
 /-!
@@ -46,6 +47,31 @@ theorem source_anonymize_fresh (hL : 0 < L) (n : Nat) (hn : n < 2 ^ L) :
 theorem source_is_mask_exactly_masks (x : Nat) (hx : x < 2 ^ 32) :
     Src.is_mask x = true ↔ ∃ j, j ≤ 32 ∧ (x = 2 ^ 32 - 2 ^ j ∨ x = 2 ^ j - 1) := by
   rw [SrcTie.is_mask_tie]; exact C05.isMask_exactly_masks x hx
+
+/-- **The stateful replacement of the source is the pure one.**  `_anonymize_match` as written (parse, `should_anonymize`,
+memoising `anonymize` / `deanonymize`, print) returns – on the constructor's memo and on every memo reached from it by
+any history of calls – exactly `IpText.anonMatch`, the cache-free function that the text-level theorems of C01, C02,
+C04, C05 and C06 are about; it never raises, keeps the invariant and only adds memo entries.  IPv4: no side condition. -/
+theorem source_replacement_is_pure_v4 (cfg : IpText.IpCfg) (h4 : cfg.fam6 = false) (undo : Bool) (txt : List Char)
+    (c : Cache) (hI : Inv cfg.h cfg.pins cfg.L cfg.B c) :
+    ∃ c', Src.anonymize_match cfg.h cfg.fam6 cfg.nets cfg.L cfg.B txt undo c = .ok (IpText.anonMatch cfg undo txt, c') ∧
+      Inv cfg.h cfg.pins cfg.L cfg.B c' ∧ (∀ e ∈ c, e ∈ c') :=
+  SrcTie.anonymize_match_spec_v4 cfg h4 undo txt c hI
+
+/-- the same for both families, under the side condition that the parsed value fits the width (for IPv6 this is
+`ipaddress`' own guarantee, exercised by the correspondence, not proved for the model's parser) -/
+theorem source_replacement_is_pure (cfg : IpText.IpCfg) (undo : Bool) (txt : List Char)
+    (hbound : ∀ n, (if cfg.fam6 then IpText.parseV6 txt else IpText.parseV4 txt) = .ok n → n < 2 ^ cfg.L)
+    (c : Cache) (hI : Inv cfg.h cfg.pins cfg.L cfg.B c) :
+    ∃ c', Src.anonymize_match cfg.h cfg.fam6 cfg.nets cfg.L cfg.B txt undo c = .ok (IpText.anonMatch cfg undo txt, c') ∧
+      Inv cfg.h cfg.pins cfg.L cfg.B c' ∧ (∀ e ∈ c, e ∈ c') :=
+  SrcTie.anonymize_match_spec cfg undo txt hbound c hI
+
+/-- the constructor's memo (source seeding loop) satisfies the invariant, so the two theorems above apply from the start -/
+theorem source_constructor_memo_invariant :
+    ∃ c0, Src.seed_loop pins [([], [])] = .ok ((), c0) ∧ Inv h pins L B c0 := by
+  obtain ⟨c0, hs, hI⟩ := seed_spec h pins L B
+  exact ⟨c0, by rw [SrcTie.seed_tie, hs], hI⟩
 
 /-- Non-vacuity: the translated functions run (kernel evaluation) – preserved prefix `10`, one host bit. -/
 example : Except.toOption (do
